@@ -21,6 +21,7 @@ import (
 	"fmt"
 	"math/rand"
 	"os"
+	"regexp"
 	"sort"
 	"strings"
 	"testing"
@@ -76,6 +77,17 @@ type bspec struct {
 	note   string
 }
 
+// kawpowRegime puts the KawPow fork at prime number fork and the k-quai reset at reset. Blocks without AuxPow stay
+// admissible for the whole history (transition period), the reward divisor is scaled to the harness difficulty and the
+// conversion hold interval is 2 prime blocks.
+func kawpowRegime(fork, reset uint64) func() {
+	ok, or, ot, od, oh := params.KawPowForkBlock, params.KQuaiResetAfterKawPowForkBlock, params.KawPowTransitionPeriod, params.KQuaiDifficultyDivisor, params.KQuaiChangeHoldInterval
+	params.KawPowForkBlock, params.KQuaiResetAfterKawPowForkBlock, params.KawPowTransitionPeriod, params.KQuaiDifficultyDivisor, params.KQuaiChangeHoldInterval = fork, reset, 1<<40, 2, 2
+	return func() {
+		params.KawPowForkBlock, params.KQuaiResetAfterKawPowForkBlock, params.KawPowTransitionPeriod, params.KQuaiDifficultyDivisor, params.KQuaiChangeHoldInterval = ok, or, ot, od, oh
+	}
+}
+
 func setU64(v *uint64) func(p uint64) func() {
 	return func(p uint64) func() {
 		old := *v
@@ -86,6 +98,9 @@ func setU64(v *uint64) func(p uint64) func() {
 
 func zonePos(r *rand.Rand, k int) uint64  { return uint64(15 + r.Intn(4)) }
 func primePos(r *rand.Rand, k int) uint64 { return uint64(5 + r.Intn(2)) }
+
+// latePrimePos: boundaries that need matured Qi outputs (conversions back to Quai, wrapping) on both sides
+func latePrimePos(r *rand.Rand, k int) uint64 { return uint64(7 + r.Intn(2)) }
 
 var allOffs = []int{-1, 0, 1, 2}
 
@@ -136,10 +151,10 @@ func boundarySpecs() []*bspec {
 		{name: "SingularityForkBlock", kind: primeTermNum, set: setU64(&params.SingularityForkBlock), pos: primePos, shares: 3,
 			need: []string{coin}, needOffs: allOffs,
 			note: "max work share count 16 -> 32 (limits only bind with > 16 shares per block, which this harness does not reach), forfeiture addresses of genesis unlocks"},
-		{name: "QiWrappingChangeBlock", kind: primeTermNum, set: setU64(&params.QiWrappingChangeBlock), pos: primePos, convEvery: 1, extra: []string{"qi-wrap"},
+		{name: "QiWrappingChangeBlock", kind: primeTermNum, set: setU64(&params.QiWrappingChangeBlock), pos: latePrimePos, convEvery: 1, extra: []string{"qi-wrap"},
 			need: []string{coin}, needOffs: allOffs,
 			note: "Qi wrapping output no longer creates a local UTXO from it on (worker.processQiTx and ProcessQiTx are separate code)"},
-		{name: "ShaEquivalentDifficultyForkBlock", kind: primeTermNum, pos: primePos, convEvery: 1, extra: []string{"qi-to-quai"},
+		{name: "ShaEquivalentDifficultyForkBlock", kind: primeTermNum, pos: latePrimePos, convEvery: 1, extra: []string{"qi-to-quai"},
 			set: func(p uint64) func() {
 				os, oh := params.ShaEquivalentDifficultyForkBlock, params.KQuaiChangeHoldInterval
 				params.ShaEquivalentDifficultyForkBlock, params.KQuaiChangeHoldInterval = p, 2
@@ -147,6 +162,39 @@ func boundarySpecs() []*bspec {
 			},
 			need: []string{coin}, needOffs: allOffs, needAt: map[int][]string{-1: {"user-tx"}, 2: {"user-tx"}},
 			note: "conversions are refused for KQuaiChangeHoldInterval (set to 2) prime blocks from the fork on: start of the window at offset 0, end at offset +2 (worker skips, processor rejects)"},
+		{name: "KawPowForkBlock", kind: primeTermNum, pos: primePos, convEvery: 1, shares: 2,
+			set:  func(p uint64) func() { return kawpowRegime(p, p) },
+			need: []string{coin}, needOffs: allOffs,
+			note: "KawPow fork (with the k-quai reset at the same height, as on mainnet) crossed inside its transition period with AuxPow-less (blake3-sealed) blocks: share reward split, progpow penalty, SHA/Scrypt share fields, reward difficulty, conversion hold window"},
+		{name: "KQuaiResetAfterKawPowForkBlock", kind: primeTermNum, pos: primePos, convEvery: 2, shares: 1,
+			set:  func(p uint64) func() { return kawpowRegime(2, p) },
+			need: []string{coin}, needOffs: allOffs,
+			note: "after the KawPow fork (at prime 2): reward log-difficulty divisor and share difficulty lower bounds start at it"},
+		{name: "ShaEquivalentDifficultyForkBlock(after KawPow)", kind: primeTermNum, pos: primePos, convEvery: 2, shares: 1,
+			set: func(p uint64) func() {
+				r1 := kawpowRegime(2, 2)
+				r2 := setU64(&params.ShaEquivalentDifficultyForkBlock)(p)
+				return func() { r2(); r1() }
+			},
+			need: []string{coin}, needOffs: allOffs,
+			note: "after the KawPow fork (at prime 2): block reward difficulty switches to the SHA-anchored equivalent, conversions held for KQuaiChangeHoldInterval (2)"},
+		{name: "ConversionStabilityForkBlock(after KawPow)", kind: primeTermNum, pos: primePos, shares: 1,
+			set: func(p uint64) func() {
+				r1 := kawpowRegime(2, 2)
+				r2 := setU64(&params.ConversionStabilityForkBlock)(p)
+				return func() { r2(); r1() }
+			},
+			need: []string{coin}, needOffs: allOffs,
+			note: "after the KawPow fork (at prime 2): EMA length and adjustment factor of the SHA/Scrypt share difficulty fields in every zone header"},
+		{name: "InclusionDepthChangeBlock(after KawPow)", kind: primeTermNum, pos: primePos, shares: 2,
+			set: func(p uint64) func() {
+				r1 := kawpowRegime(2, 2)
+				r2 := setU64(&params.InclusionDepthChangeBlock)(p)
+				r3 := setU64(&params.InclusionDepthUpdatePeriod)(2)
+				return func() { r3(); r2(); r1() }
+			},
+			need: []string{coin, "outbound-etx"}, needOffs: allOffs,
+			note: "after the KawPow fork (at prime 2): share target ramp over InclusionDepthUpdatePeriod (2) prime blocks from the change block on, liveness rule of share rewards"},
 		{name: "SelfDestructRefundForkBlock", kind: primeTermNum, set: setU64(&params.SelfDestructRefundForkBlock), pos: primePos,
 			need: []string{coin}, needOffs: allOffs,
 			note: "EVM rule (same interpreter for worker and processor); crossed with ordinary traffic only"},
@@ -157,10 +205,10 @@ func boundarySpecs() []*bspec {
 var notCoverable = []string{
 	"MaxCodeSizeForkHeight: const",
 	"TokenChoiceSetSize: const 4000 prime blocks; the exchange-rate controller (KQuaiChangeBlock, KQuaiChangeTable, KQuaiChangeHoldInterval in CalculateBetaFromMiningChoiceAndConversions, the KQuaiReset/ShaEquivalent exchange-rate resets) only runs after ControllerKickInBlock+4000 prime blocks",
-	"KawPowForkBlock, KawPowTransitionPeriod, KQuaiResetAfterKawPowForkBlock, ConversionStabilityForkBlock, InclusionDepthUpdatePeriod: need AuxPow/KawPow sealed blocks and SHA/Scrypt shares, which the blake3 harness cannot produce",
+	"KawPowForkBlock+KawPowTransitionPeriod (end of the transition) and every rule on AuxPow-carrying blocks or SHA/Scrypt shares (share count limits, liveness penalties): need KawPow/AuxPow sealed blocks, which the blake3 harness cannot produce; the fork itself is crossed inside the transition period",
 	"QiActivationBlock: var, but at harness difficulty the Qi reward is 1 qit on both sides of it (not observable)",
 	"MaxGrindIncreaseForkBlock: var (*big.Int); contract address grinding bound inside the EVM, shared by worker and processor",
-	"ConversionLockPeriod, LockupByteToBlockDepth, types.TrimDepths: depths relative to the creating block, not heights; their maturity boundaries occur in every net (class lock-maturity:*), TrimDepths is compressed in part of the nets",
+	"ConversionLockPeriod, LockupByteToBlockDepth, types.TrimDepths: depths relative to the creating block, not heights; every coinbase/conversion output of every net carries a lock computed by both sides (a disagreement changes the UTXO root), TrimDepths is compressed in part of the nets",
 	"WorkSharesInclusionDepth / NewWorkSharesInclusionDepth: var int; the height > depth boundary (first coinbase emission) lies at genesis+3 where no inbound ETX can exist yet",
 	"TREE_EXPANSION_*: const, single-slice harness",
 }
@@ -184,9 +232,10 @@ type bnet struct {
 	step       int
 	extraSent  map[string]int
 	extraErr   map[string]string
-	locks      map[string]uint64 // outpoint -> lock height of outputs owned by the wallet (for lock-maturity classes)
 	seenOffs   map[int]bool
 	blocks     int
+	prevOrder  int
+	cov        map[string]bool // classes observed (shared by all nets of the stage)
 	paramsDump map[string]any
 }
 
@@ -263,6 +312,9 @@ func (d *bnet) plan(next uint64, headPT uint64) int {
 		return -1
 	}
 	// prime-terminus parameters: a prime block every 2..4 zone blocks so that the net stays short
+	if d.pat == "natural" {
+		return -1
+	}
 	if next-d.lastPrime >= d.gap {
 		return 0
 	}
@@ -349,7 +401,6 @@ func (d *bnet) extraTraffic() {
 // kinds lists the content kinds of an own block.
 func (d *bnet) kinds(b *types.WorkObject, order int) []string {
 	seen := map[string]bool{"block": true, fmt.Sprintf("order%d", order): true}
-	zn := b.NumberU64(common.ZONE_CTX)
 	for _, tx := range b.Transactions() {
 		switch tx.Type() {
 		case types.QuaiTxType:
@@ -366,14 +417,6 @@ func (d *bnet) kinds(b *types.WorkObject, order int) []string {
 				seen["qi-to-quai-request"] = true
 			case common.AddressLength:
 				seen["qi-wrap-request"] = true
-			}
-			for _, in := range tx.TxIn() {
-				if lock, ok := d.locks[opKeyB(in.PreviousOutPoint.TxHash, in.PreviousOutPoint.Index)]; ok && lock > 0 {
-					if o := int(int64(zn) - int64(lock)); o >= 0 && o <= 2 {
-						// a spend at (or right after) the height from which the output is spendable
-						d.m.Eval(fmt.Sprintf("lock-maturity:off%+d:qi-spend", o), b.Hash().Hex())
-					}
-				}
 			}
 		case types.ExternalTxType:
 			switch {
@@ -418,14 +461,6 @@ func (d *bnet) kinds(b *types.WorkObject, order int) []string {
 	}
 	sort.Strings(out)
 	return out
-}
-
-func (d *bnet) refreshLocks() {
-	for _, u := range d.a.W.OwnedUTXOs(d.a.N) {
-		if u.Lock != nil && u.Lock.Sign() > 0 {
-			d.locks[opKeyB(u.Hash, u.Index)] = u.Lock.Uint64()
-		}
-	}
 }
 
 func (d *bnet) witness(stage string, e error, mm *hnet.Mined, off int) map[string]any {
@@ -474,24 +509,26 @@ func dumpParams() map[string]any {
 		"SingularityForkBlock": params.SingularityForkBlock, "QiWrappingChangeBlock": params.QiWrappingChangeBlock,
 		"ShaEquivalentDifficultyForkBlock": params.ShaEquivalentDifficultyForkBlock, "KQuaiChangeHoldInterval": params.KQuaiChangeHoldInterval,
 		"SelfDestructRefundForkBlock": params.SelfDestructRefundForkBlock, "KawPowForkBlock": params.KawPowForkBlock,
+		"KQuaiResetAfterKawPowForkBlock": params.KQuaiResetAfterKawPowForkBlock, "KawPowTransitionPeriod": params.KawPowTransitionPeriod, "KQuaiDifficultyDivisor": params.KQuaiDifficultyDivisor,
+		"ConversionStabilityForkBlock": params.ConversionStabilityForkBlock, "InclusionDepthUpdatePeriod": params.InclusionDepthUpdatePeriod,
 		"ConversionLockPeriod": params.ConversionLockPeriod, "LockupByteToBlockDepth": params.LockupByteToBlockDepth, "TrimDepths": fmt.Sprint(types.TrimDepths)}
 }
 
 // runBoundaryNet drives one chain across the boundary of spec.
-func runBoundaryNet(m *mon.M, spec *bspec, k int) {
+func runBoundaryNet(m *mon.M, spec *bspec, k int, cov map[string]bool) {
 	r := m.Rand(fmt.Sprintf("boundary-%s-%d", spec.name, k))
 	p := spec.pos(r, k)
 	restore := spec.set(p)
 	defer restore()
 	d := &bnet{m: m, spec: spec, k: k, p: p, r: r, extraUsed: map[string]int{}, extraSent: map[string]int{}, extraErr: map[string]string{},
-		locks: map[string]uint64{}, seenOffs: map[int]bool{}}
+		seenOffs: map[int]bool{}, cov: cov, prevOrder: -1}
 	switch {
 	case k%2 == 0:
 		d.pat = "A"
 	default:
 		d.pat = "B"
 	}
-	if m.Thorough() && k >= 4 && k%3 == 2 {
+	if m.Thorough() && k >= 4 && k%3 == 2 && k < m.N(2, 100) {
 		d.pat = "natural"
 	}
 	if spec.trimEvery > 0 && k%spec.trimEvery == spec.trimEvery-1 {
@@ -554,15 +591,26 @@ func runBoundaryNet(m *mon.M, spec *bspec, k int) {
 			serr   error
 			failed bool
 		)
-		crashed := m.Guard("own-block-crashed-node:"+spec.name, func() any { return d.witness("panic", nil, mm, 0) }, func() {
+		nextOff := d.offsetOfNext(head, want)
+		crashed := m.Guard("own-block-crashed-node:"+spec.name+":"+offStr(nextOff)+":while-building-and-appending-it", func() any { return d.witness("panic", nil, mm, nextOff) }, func() {
 			d.step++
-			d.refreshLocks()
 			d.extraTraffic()
 			mm, serr = a.Step(hnet.MineOpts{WantOrder: want})
+		})
+		if crashed {
+			m.AddExtra("nets_abandoned", 1)
+			return
+		}
+		appendedOff := nextOff
+		if mm != nil && mm.Blocks[2] != nil {
+			appendedOff = d.offset(mm.Blocks[2])
+		}
+		// after the append the node executes the block and assembles its successor in one pipeline run
+		crashed = m.Guard("own-block-crashed-node:"+spec.name+":"+offStr(appendedOff)+":while-executing-it-or-assembling-its-successor", func() any { return d.witness("panic", nil, mm, appendedOff) }, func() {
 			if mm == nil || mm.Blocks[2] == nil {
 				// the worker could not produce a block on the node's own executed head; attributed to the block being built
 				off := d.offsetOfNext(head, want)
-				m.Violation(pfx+offStr(off)+":build: "+errClass(serr), fmt.Sprintf("%s=%d: the node could not assemble/seal block %d on its own head: %v", spec.name, p, next, serr),
+				m.Violation(pfx+offStr(off)+":"+stageErr("build", serr), fmt.Sprintf("%s=%d: the node could not assemble/seal block %d on its own head: %v", spec.name, p, next, serr),
 					d.witness("build", serr, nil, off))
 				failed = true
 				return
@@ -570,13 +618,13 @@ func runBoundaryNet(m *mon.M, spec *bspec, k int) {
 			b := mm.Blocks[2]
 			off := d.offset(b)
 			if serr != nil {
-				m.Violation(pfx+offStr(off)+":append: "+errClass(serr), fmt.Sprintf("%s=%d: own sealed block %v (order %d, prime terminus %d) was refused by Append: %v", spec.name, p, mm.Number, mm.Order, b.PrimeTerminusNumber(), serr),
+				m.Violation(pfx+offStr(off)+":"+stageErr("append", serr), fmt.Sprintf("%s=%d: own sealed block %v (order %d, prime terminus %d) was refused by Append: %v", spec.name, p, mm.Number, mm.Order, b.PrimeTerminusNumber(), serr),
 					d.witness("append", serr, mm, off))
 				failed = true
 				return
 			}
 			if e := a.N.Settle(); e != nil {
-				m.Violation(pfx+offStr(off)+":execute: "+errClass(e), fmt.Sprintf("%s=%d: own appended block %v (order %d, prime terminus %d, content %v) failed execution on the node that built it: %v", spec.name, p, mm.Number, mm.Order, b.PrimeTerminusNumber(), d.kinds(b, mm.Order), e),
+				m.Violation(pfx+offStr(off)+":"+stageErr("execute", e), fmt.Sprintf("%s=%d: own appended block %v (order %d, prime terminus %d, content %v) failed execution on the node that built it: %v", spec.name, p, mm.Number, mm.Order, b.PrimeTerminusNumber(), d.kinds(b, mm.Order), e),
 					d.witness("execute", e, mm, off))
 				failed = true
 				return
@@ -590,12 +638,12 @@ func runBoundaryNet(m *mon.M, spec *bspec, k int) {
 			// a fresh node that is only given the blocks
 			fpfx := "follower-rejected-own-block:" + spec.name + ":" + offStr(off)
 			if e := d.f.Follow(mm); e != nil {
-				m.Violation(fpfx+":append: "+errClass(e), fmt.Sprintf("%s=%d: a fresh node refused the block %v the miner accepted: %v", spec.name, p, mm.Number, e), d.witness("follower-append", e, mm, off))
+				m.Violation(fpfx+":"+stageErr("append", e), fmt.Sprintf("%s=%d: a fresh node refused the block %v the miner accepted: %v", spec.name, p, mm.Number, e), d.witness("follower-append", e, mm, off))
 				failed = true
 				return
 			}
 			if e := d.f.Settle(); e != nil {
-				m.Violation(fpfx+":execute: "+errClass(e), fmt.Sprintf("%s=%d: a fresh node could not execute the block %v the miner executed: %v", spec.name, p, mm.Number, e), d.witness("follower-execute", e, mm, off))
+				m.Violation(fpfx+":"+stageErr("execute", e), fmt.Sprintf("%s=%d: a fresh node could not execute the block %v the miner executed: %v", spec.name, p, mm.Number, e), d.witness("follower-execute", e, mm, off))
 				failed = true
 				return
 			}
@@ -612,6 +660,7 @@ func runBoundaryNet(m *mon.M, spec *bspec, k int) {
 			return
 		}
 		lastOrder = mm.Order
+		d.prevOrder = mm.Order
 		if mm.Order == 0 {
 			d.lastPrime = mm.Number[2]
 			d.gap = uint64(2 + r.Intn(3))
@@ -655,12 +704,29 @@ func (d *bnet) note(mm *hnet.Mined, off int) {
 		return
 	}
 	d.seenOffs[off] = true
-	for _, k := range d.kinds(b, mm.Order) {
-		m.Eval(fmt.Sprintf("%s:off%+d:%s", d.spec.name, off, k), b.Hash().Hex())
+	kinds := d.kinds(b, mm.Order)
+	if d.prevOrder == 0 && d.blocks > 1 && mm.Number[2] > 8 && !strings.Contains(strings.Join(kinds, ","), "inbound-etx") {
+		m.AddExtra("successor-of-prime-block-without-inbound-etx", 1)
+	}
+	for _, k := range kinds {
+		c := fmt.Sprintf("%s:off%+d:%s", d.spec.name, off, k)
+		m.Eval(c, b.Hash().Hex())
+		d.cov[c] = true
 	}
 	if d.trim {
 		m.Eval(fmt.Sprintf("%s:off%+d:compressed-trim-depths", d.spec.name, off), b.Hash().Hex())
 	}
+}
+
+var rePendingPfx = regexp.MustCompile(`^GeneratePendingHeader level (\d) on [0-9a-fA-F]+: `)
+
+// stageErr: stable class of an error of a pipeline stage (the harness prefix "GeneratePendingHeader level N on <hash>" becomes "levelN").
+func stageErr(stage string, err error) string {
+	s := fmt.Sprint(err)
+	if mt := rePendingPfx.FindStringSubmatch(s); mt != nil {
+		return stage + "(level" + mt[1] + "): " + errClass(fmt.Errorf("%s", s[len(mt[0]):]))
+	}
+	return stage + ": " + errClass(err)
 }
 
 // ---------------------------------------------------------------- the stage
@@ -670,8 +736,8 @@ func TestC07Boundaries(t *testing.T) {
 	defer m.Finish()
 	m.Rule("for each settable height/fork parameter P of /repo/params that both the worker and the validating side read, short hnet histories with mixed traffic " +
 		"(Quai transfers, creations, Quai<->Qi conversions, Qi spends, coinbases of both ledgers, lockup-contract coinbases, own work shares) in which the boundary of P lies INSIDE the history " +
-		"(zone height 14..20, or prime number 5..6 for parameters read against the prime terminus), with the order of the blocks around the boundary chosen so that blocks at offsets -1..+2 " +
-		"carry inbound coinbase ETXs; every block the node's worker builds must be appended and executed by that node (it becomes the executed zone head) and by a fresh follower node that is " +
+		"(zone height 14..18, or prime number 5..8 for parameters read against the prime terminus number; the post-KawPow parameters with the KawPow fork at prime 2, inside its transition period), " +
+		"with the order of the blocks around the boundary chosen so that blocks at offsets -1..+2 carry inbound coinbase ETXs; every block the node's worker builds must be appended and executed by that node (it becomes the executed zone head) and by a fresh follower node that is " +
 		"only given the wire bytes; class = (parameter, offset of the block from the boundary, content kind)")
 	m.Assume("the parameters are process-global Go variables: one net (plus its follower) at a time, set before the net is created and restored afterwards",
 		"the other timeline parameters stay at hnet.DefaultRegime (boundaries at heights 2..3)",
@@ -680,8 +746,9 @@ func TestC07Boundaries(t *testing.T) {
 	hnet.ApplyRegime(hnet.DefaultRegime()) // fire the once-only default so that the per-net settings below are not overwritten by hnet.New
 	specs := boundarySpecs()
 	only := envList("VERIF_C07_BOUNDARY")
-	nets := m.N(2, 40)
+	nets := m.N(2, 100)
 	var names []string
+	cov := map[string]bool{}
 	for _, s := range specs {
 		if len(only) > 0 && !only[s.name] {
 			continue
@@ -689,18 +756,46 @@ func TestC07Boundaries(t *testing.T) {
 		names = append(names, fmt.Sprintf("%s (%s)", s.name, s.kind))
 		m.Extra("parameter:"+s.name, s.note)
 		for k := 0; k < nets; k++ {
-			runBoundaryNet(m, s, k)
+			runBoundaryNet(m, s, k, cov)
 		}
+		var needed []string
 		for _, off := range s.needOffs {
 			for _, kind := range s.need {
-				m.Need(fmt.Sprintf("%s:off%+d:%s", s.name, off, kind))
+				needed = append(needed, fmt.Sprintf("%s:off%+d:%s", s.name, off, kind))
 			}
 		}
 		for off, kinds := range s.needAt {
 			for _, kind := range kinds {
-				m.Need(fmt.Sprintf("%s:off%+d:%s", s.name, off, kind))
+				needed = append(needed, fmt.Sprintf("%s:off%+d:%s", s.name, off, kind))
 			}
 		}
+		sort.Strings(needed)
+		// chains are not a function of the seed (wall-clock stamps, the worker's own coin flips for the coinbase ledger): if an
+		// essential class was not met by the scheduled nets, up to three more nets are run before the run is declared inconclusive
+		for extra := 0; extra < 3; extra++ {
+			missing := ""
+			for _, c := range needed {
+				if !cov[c] {
+					missing = c
+					break
+				}
+			}
+			if missing == "" {
+				break
+			}
+			k := nets + extra
+			if s.kind == zoneHeight {
+				// order pattern A (even k) puts the inbound ETXs at offsets -1/+1, B (odd k) at 0/+2
+				wantA := strings.Contains(missing, ":off-1:") || strings.Contains(missing, ":off+1:")
+				if (k%2 == 0) != wantA {
+					k++
+				}
+			}
+			m.AddExtra("top-up-nets", 1)
+			m.Extra("top-up-for:"+s.name, missing)
+			runBoundaryNet(m, s, k+10*extra, cov)
+		}
+		m.Need(needed...)
 	}
 	m.Extra("parameters_covered", names)
 	m.Extra("parameters_not_covered", notCoverable)
